@@ -47,6 +47,7 @@ func runC10(c *Ctx) {
 	listenClassifiesBeforeCancel(c, "R-C10-13")
 	initCancelReturnsErr(c, "R-C10-14")
 	onlyWatcherReceivesChanges(c, "R-C10-4")
+	c19Delivery(c) // the LinkDown a task subscribed to is delivered (shared R-C19-3)
 }
 
 // c10RetryOnlyTimeouts (R-C10-11): a failed read is retried on the same
